@@ -55,7 +55,7 @@ NAMES = ['a', 'ab', '.a', 'a/b', '(a)', 'a|b', '!', '[', 'a\\', '\\a', '*']
 
 
 def make_tree():
-    root = env.mkscratch('c10-')
+    _base, root = env.mknested('c10-')
     for f in ('a', 'b', '.h', 'ab'):
         open(os.path.join(root, f), 'w').close()
     os.mkdir(os.path.join(root, 'd'))
@@ -308,7 +308,7 @@ def run(ctx):
             one_string(ctx, 10 ** 7 + k, text, root)
         ctx.count('random_strings', k)
     finally:
-        shutil.rmtree(root, ignore_errors=True)
+        shutil.rmtree(root[:-len('/w/x/y/root')], ignore_errors=True)
 
 
 def replay(ctx, w):
@@ -323,5 +323,5 @@ def replay(ctx, w):
         if 'name' in w:
             malformed_semantics(ctx)
     finally:
-        shutil.rmtree(root, ignore_errors=True)
+        shutil.rmtree(root[:-len('/w/x/y/root')], ignore_errors=True)
     return ctx.violations or None
